@@ -55,3 +55,21 @@ def run(ctx):
     import rules.C11 as C11
     if not A.err:
         ctx.step(C11.r11_3, ctx, A)
+    # what a command writes as an FST comes out of the CURRENT writer: a command that copies an input file to its output (a "nothing to
+    # do" shortcut for a single input) passes on whatever version, type word and values that file has
+    b = ctx.bin
+    if b is not None:
+        RA = ctx.rule('R09.10', 'CLI commands produce their FST with the builder, not by copying a file', floor=1)
+        n_b = 0
+        for g in b.fn_list:
+            if g.from_expansion or not g.path.startswith(('cmd::', '<cmd::')):
+                continue
+            for _, t in g.calls():
+                cal = g.callee(t) or ''
+                if cal in ('std::fs::copy', 'std::io::copy', 'std::fs::rename', 'std::fs::hard_link') or (cal.startswith('std::fs::') and cal.rsplit('::', 1)[-1] in ('copy', 'rename', 'hard_link')):
+                    ctx.violation(RA, 'file-copy:' + g.path, '%s produces its output with %s: the result is a byte copy of an input (its version, type word, values and missing checksum included), not an FST written by this builder' % (g.path, cal), fn=g, at=t.get('span'))
+                if cal.startswith('fst::') and 'Builder' in cal and cal.endswith('::new'):
+                    n_b += 1
+                    ctx.ok(RA, 'built:%s#%s' % (g.path, t.get('span')), None, g, t.get('span'))
+        if n_b == 0:
+            ctx.undecided(RA, 'built', 'no builder construction found in the commands')
